@@ -256,9 +256,18 @@ func NewFloatFromString(typ *types.FloatType, s string) (*Float, error) {
 		}
 	}
 	const base = 10
+	// A decimal literal is read as a double, rounded once to the nearest double
+	// (to infinity or zero when it is out of range), as LLVM does; for half and
+	// float that double is then the value of the constant.
+	f64, f64err := strconv.ParseFloat(strings.TrimPrefix(s, "+"), 64)
+	f64ok := f64err == nil || errors.Is(f64err, strconv.ErrRange)
 	switch typ.Kind {
 	case types.FloatKindHalf:
 		const precision = 11
+		if f64ok && (math.IsInf(f64, 0) || f64 == 0) {
+			// Out of the range of double; e.g. `half 1.0e999`.
+			return &Float{Typ: typ, X: big.NewFloat(f64).SetPrec(precision)}, nil
+		}
 		x, _, err := big.ParseFloat(s, base, precision, big.ToNearestEven)
 		if err != nil {
 			return nil, errors.WithStack(err)
@@ -270,6 +279,9 @@ func NewFloatFromString(typ *types.FloatType, s string) (*Float, error) {
 		return c, nil
 	case types.FloatKindFloat:
 		const precision = 24
+		if f64ok && (math.IsInf(f64, 0) || f64 == 0) {
+			return &Float{Typ: typ, X: big.NewFloat(f64).SetPrec(precision)}, nil
+		}
 		x, _, err := big.ParseFloat(s, base, precision, big.ToNearestEven)
 		if err != nil {
 			return nil, errors.WithStack(err)
@@ -281,14 +293,14 @@ func NewFloatFromString(typ *types.FloatType, s string) (*Float, error) {
 		return c, nil
 	case types.FloatKindDouble:
 		const precision = 53
+		if f64ok {
+			// Round once, to the nearest double: rounding to 53 bits first and
+			// to a subnormal (or to infinity) afterwards would round twice.
+			return &Float{Typ: typ, X: big.NewFloat(f64)}, nil
+		}
 		x, _, err := big.ParseFloat(s, base, precision, big.ToNearestEven)
 		if err != nil {
 			return nil, errors.WithStack(err)
-		}
-		// Round once, to the nearest double: rounding to 53 bits first and to a
-		// subnormal (or to infinity) afterwards would round twice.
-		if f, err := strconv.ParseFloat(strings.TrimPrefix(s, "+"), 64); err == nil || errors.Is(err, strconv.ErrRange) {
-			x = big.NewFloat(f)
 		}
 		c := &Float{
 			Typ: typ,
